@@ -230,7 +230,7 @@ def run(chk, repo, tier):
     chk.ob('C13-e', 'D-flow', fu.key, 'scalar/vector operand: wavelength grid unchanged, ufunc(self.value, other)', keep_ok, '', fu.loc())
 
     # ---------------------------------------------------------------- C13-f
-    _, paths, _ = analyse(repo, fi, types={('sym', 's1'): cls, ('sym', 's2'): cls})
+    _, paths, _ = analyse(repo, fi, types={('sym', 's1'): cls, ('sym', 's2'): cls}, unroll=True)
     for p in returns(paths):
         tag = conds_str(p)[:80]
         smp = p.calls(f'{SPEC}.sample')
